@@ -167,3 +167,70 @@ package mvp6_0
 //@   loop 1: invariant comp.disjointLines(u.l3) ==> (forall j, k :: 0 <= j && j < _idx0 && 0 <= k && k < 64 && int(u.l3.lines[j].Boundary[0]) + k < len(u.ctx.Memory) ==> memAt(u, int(u.l3.lines[j].Boundary[0]) + k) == u.l3.lines[j].Data[k])
 //@   loop 1: invariant i > 0 ==> (forall k :: 0 <= k && k < 64 && int(u.l3.lines[_idx0].Boundary[0]) + k < len(u.ctx.Memory) ==> memAt(u, int(u.l3.lines[_idx0].Boundary[0]) + k) == u.l3.lines[_idx0].Data[k])
 //@   loop 1: invariant forall x :: 0 <= x && x < len(u.ctx.Memory) && x <= 2147483647 && (forall j :: 0 <= j && j < _idx0 ==> !comp.covers(u.l3.lines[j], int32(x))) && !comp.covers(u.l3.lines[_idx0], int32(x)) ==> memAt(u, x) == old(memAt(u, x))
+
+// ---- BEGIN generated by gen_bu.py: branch target buffer and branch unit (C03)
+// The BTB is a bounded FIFO of (pc -> last resolved target) pairs. get reports
+// the recorded target of the first entry for pc; add records (pc, pcDest),
+// overwriting the entry for pc or displacing the oldest entry, and never
+// invents an entry for another pc.
+//@ spec func btbHas(b *branchTargetBuffer, pc int32) bool = exists a :: lo(b.buffer) <= a && a < hi(b.buffer) && at(b.buffer, a).pc == pc
+//@ spec func btbFirst(b *branchTargetBuffer, pc int32, a int) bool = lo(b.buffer) <= a && a < hi(b.buffer) && at(b.buffer, a).pc == pc && (forall c :: lo(b.buffer) <= c && c < a ==> at(b.buffer, c).pc != pc)
+//@ spec func wfBTB(b *branchTargetBuffer) bool = b != nil && b.length > 0 && len(b.buffer) <= b.length
+
+//@ func (*branchTargetBuffer).get
+//@   mode int
+//@   requires b != nil
+//@   ensures result1 == btbHas(b, pc)
+//@   ensures forall a :: btbFirst(b, pc, a) ==> result == at(b.buffer, a).pcDest
+//@   ensures !result1 ==> result == 0
+//@   assigns nothing
+//@   loop 0: invariant forall c :: lo(b.buffer) <= c && c < lo(b.buffer) + _idx0 ==> at(b.buffer, c).pc != pc
+
+//@ func (*branchTargetBuffer).add
+//@   mode int
+//@   requires wfBTB(b)
+//@   ensures wfBTB(b) && b.length == old(b.length)
+//@   ensures btbHas(b, pc)
+//@   ensures forall a :: lo(b.buffer) <= a && a < hi(b.buffer) && at(b.buffer, a).pc != pc ==> (exists c :: old(lo(b.buffer)) <= c && c < old(hi(b.buffer)) && old(at(b.buffer, c)) == at(b.buffer, a))
+//@   ensures forall a :: btbFirst(b, pc, a) ==> at(b.buffer, a).pcDest == pcDest
+//@   assigns b.buffer, all []entry
+//@   loop 0: invariant 0 <= i && i <= len(b.buffer) && b.buffer == old(b.buffer)
+//@   loop 0: invariant forall c :: lo(b.buffer) <= c && c < lo(b.buffer) + i ==> at(b.buffer, c).pc != pc
+
+//@ func (*fetchUnit).reset
+//@   inline
+//@ func (*decodeUnit).notifyBranchResolved
+//@   inline
+
+// assert: unconditional jump with a recorded target -> the fetch unit is
+// redirected to that target, live (not complete) and with pending fetches to
+// be cleaned, and no check is armed; unknown target -> armed with -1 (always a
+// flush); conditional branch -> armed with the fall-through pc+4; anything
+// else disarms. shouldFlushPipeline(pc) reports a flush exactly when an armed
+// prediction differs from the resolved pc, and disarms.
+//@ spec func fuSame(fu *fetchUnit) bool = fu.pc == old(fu.pc) && fu.complete == old(fu.complete) && fu.toCleanPending == old(fu.toCleanPending)
+//@ func (*btbBranchUnit).assert
+//@   mode bv
+//@   requires u != nil && u.btb != nil && u.fu != nil && runner.Runner != nil
+//@   ensures risc.insType(runner.Runner).IsUnconditionalBranch() && !btbHas(u.btb, runner.Pc) ==> u.toCheck && u.expectation == -1 && fuSame(u.fu)
+//@   ensures risc.insType(runner.Runner).IsUnconditionalBranch() && btbHas(u.btb, runner.Pc) ==> !u.toCheck && !u.fu.complete && u.fu.toCleanPending
+//@   ensures forall a :: risc.insType(runner.Runner).IsUnconditionalBranch() && btbFirst(u.btb, runner.Pc, a) ==> u.fu.pc == at(u.btb.buffer, a).pcDest
+//@   ensures risc.insType(runner.Runner).IsConditionalBranch() ==> u.toCheck && u.expectation == runner.Pc + 4 && fuSame(u.fu)
+//@   ensures !risc.insType(runner.Runner).IsBranch() ==> !u.toCheck && u.expectation == old(u.expectation) && fuSame(u.fu)
+
+//@ func (*btbBranchUnit).shouldFlushPipeline
+//@   mode bv
+//@   requires u != nil
+//@   ensures result == (old(u.toCheck) && old(u.expectation) != pc)
+//@   ensures !u.toCheck && u.expectation == old(u.expectation)
+//@   assigns u.toCheck
+
+// a resolved jump records its target, restarts the fetch unit (live) at the
+// resolved target whatever was predicted, and lifts the decode stall.
+//@ func (*btbBranchUnit).notifyJumpAddressResolved
+//@   mode bv
+//@   requires u != nil && wfBTB(u.btb) && u.fu != nil && u.du != nil
+//@   ensures u.fu.pc == pcTo && !u.fu.complete && u.fu.toCleanPending && !u.du.pendingBranchResolution
+//@   ensures wfBTB(u.btb) && btbHas(u.btb, pc) && (forall a :: btbFirst(u.btb, pc, a) ==> at(u.btb.buffer, a).pcDest == pcTo)
+//@   ensures u.toCheck == old(u.toCheck) && u.expectation == old(u.expectation)
+// ---- END generated by gen_bu.py
